@@ -156,6 +156,7 @@ def _escape_bytes(abi):
         [0x00],  # nop
         [0x00, 0x16, 0x06, 0x03, 0x0A] + c2,  # nop; val_expression r6 {const2u 0x1234}
         [0x0F, 2 + len(pal), 0x03] + pal + [0x06],  # def_cfa_expression {addr PAL; deref}
+        [0x16, 0x06, 0x06, 0x92, 0x21, 0x78, 0x77, 0x70, 0x22],  # val_expression r6 {bregx r33,-8; breg7 -16; plus}: signed LEB operands
     ]
 
 
@@ -285,7 +286,7 @@ class World:
         self.m.aux_data["cfiDirectives"] = gtirb.AuxData(type_name=_TYPE, data=data)
 
 
-_EXPR_OPCODE = {"OpAddr": 0x03, "OpDeref": 0x06, "OpConst1U": 0x08, "OpConst2U": 0x0A, "OpPlus": 0x22, "OpPlusUConst": 0x23}
+_EXPR_OPCODE = {"OpAddr": 0x03, "OpDeref": 0x06, "OpConst1U": 0x08, "OpConst2U": 0x0A, "OpPlus": 0x22, "OpPlusUConst": 0x23, "OpBRegX": 0x92}
 
 
 _FIELD_NAMES = {}
